@@ -3,12 +3,14 @@
 
 mod conformance;
 mod core;
+mod engc;
 mod enga;
 mod gen;
 mod json;
 mod model;
 mod obs;
 mod props_a;
+mod props_c;
 mod props_w;
 mod props_x;
 mod rng;
@@ -27,6 +29,11 @@ fn lookup(id: &str) -> Option<Box<dyn Prop>> {
         "C05" => Box::new(props_w::C05),
         "C06" => Box::new(props_w::C06),
         "C12" => Box::new(props_x::C12),
+        "C07" => Box::new(props_c::C07),
+        "C08" => Box::new(props_c::C08),
+        "C09" => Box::new(props_c::C09),
+        "C10" => Box::new(props_c::C10),
+        "C18" => Box::new(props_c::C18),
         "C11" => Box::new(props_a::C11),
         "C13" => Box::new(props_a::C13),
         "C14" => Box::new(props_a::C14),
@@ -74,6 +81,19 @@ fn main() {
             let threads = arg(&args, "--threads")
                 .and_then(|s| s.parse().ok())
                 .unwrap_or_else(|| std::thread::available_parallelism().map(|n| n.get()).unwrap_or(4).min(16));
+            // server-level verdicts are relative to the stub: check it against the real kernel first
+            let mut conf = None;
+            if prop.needs_conformance() {
+                let r = conformance::run();
+                if !r.mismatches.is_empty() {
+                    for m in r.mismatches.iter().take(10) {
+                        println!("MISMATCH {}", m);
+                    }
+                    eprintln!("HARNESS-ERROR: simkernel does not conform to the real kernel ({} mismatches)", r.mismatches.len());
+                    std::process::exit(2);
+                }
+                conf = Some(conformance::to_json(&r));
+            }
             let cfg = RunCfg {
                 tier,
                 seed,
@@ -86,7 +106,7 @@ fn main() {
                 verif_dir,
                 write_evidence: !args.iter().any(|a| a == "--no-evidence"),
                 first: arg(&args, "--first").and_then(|s| s.parse().ok()).unwrap_or(0),
-                conformance: None,
+                conformance: conf,
                 quiet: false,
             };
             runner::run_check(prop.as_ref(), &cfg)
